@@ -57,6 +57,14 @@ def correspondence(ctx):
     names = sorted(classes)
     rng = ctx.rng("c14")
     samples = {n: _samples(classes[n], rng, 3 if ctx.thorough else 2) for n in names}
+    for n in names:
+        # one text shared by every class that accepts it: identical spelling must not make unrelated versions equal
+        for t in ("1.2.3", "1.0.1"):
+            try:
+                samples[n].append((t, classes[n](t)))
+                break
+            except Exception:  # noqa: BLE001
+                continue
     lines = []
     for a in names:
         for b in names:
@@ -106,28 +114,52 @@ def correspondence(ctx):
     for name in S.ALL:
         vcls = S.vclass(name)
         rcls = S.rclass(name) or B._generic_range_for(vcls)
-        own = _samples(vcls, rng, 1)
+        own = _samples(vcls, rng, 3)
         if not own:
             continue
+        own = sorted({t: v for t, v in own}.items(), key=lambda tv: _Key(tv[1]))
         con = VersionConstraint(comparator=">=", version=own[0][1])
         rng_obj = rcls(constraints=[con])
+        star = VersionConstraint(comparator="*", version_class=vcls)
+        shapes = [("constraint", lambda v: v in con), ("range", lambda v: v in rng_obj), ("satisfies", lambda v: v.satisfies(con)),
+                  ("star constraint", lambda v: v in star), ("star range", lambda v, r=rcls(constraints=[star]): v in r)]
+        if len(own) >= 2:
+            a, b = own[0][1], own[-1][1]
+            for label, cs in (("range =a|=b", [("=", a), ("=", b)]), ("range !=a|!=b", [("!=", a), ("!=", b)]),
+                              ("range >=a|<b", [(">=", a), ("<", b)]), ("range <a|>b", [("<", a), (">", b)]),
+                              ("range =a|>b", [("=", a), (">", b)])):
+                try:
+                    rr = rcls(constraints=[VersionConstraint(comparator=c, version=v) for c, v in cs])
+                except Exception:  # noqa: BLE001
+                    continue
+                shapes.append((label, lambda v, rr=rr: v in rr))
         for c in names:
             pred = xa["xin %s %s" % (vcls.__name__, c)]
             for sc, vcv in samples[c][:1]:
-                for kind, fn, err in (("constraint", lambda: vcv in con, ValueError), ("range", lambda: vcv in rng_obj, TypeError),
-                                      ("satisfies", lambda: vcv.satisfies(con), ValueError)):
+                for kind, fn in shapes:
                     try:
-                        r = fn()
+                        r = fn(vcv)
                         obs = "answer"
-                    except err:
+                    except (TypeError, ValueError):
                         obs = "error"
                     except Exception as e:  # noqa: BLE001
-                        obs = "raise:" + type(e).__name__
+                        obs = "raise:" + type(e).__name__     # still "an error instead of an answer"
                     unrelated = not issubclass(classes[c], vcls) and not issubclass(vcls, classes[c])
                     ctx.count("foreign-membership", key=(name, c, kind), nontrivial=unrelated, branch=pred)
-                    if unrelated and obs != "error":
-                        ctx.disagree("foreign-membership", "xin %s %s (%s)" % (vcls.__name__, c, kind), obs, pred, True,
-                                     {"scheme": name, "foreign_class": c, "version": sc, "kind": kind}, spec="error")
-                    elif pred != "depends" and obs != pred:
+                    if unrelated and obs == "answer":
+                        ctx.disagree("foreign-membership", "xin %s %s (%s)" % (vcls.__name__, c, kind), "answers %r" % (r,), pred, True,
+                                     {"scheme": name, "foreign_class": c, "version": sc, "kind": kind,
+                                      "own_versions": [t for t, _ in own]}, spec="error")
+                    elif pred != "depends" and obs != pred and kind in ("constraint", "range", "satisfies"):
                         ctx.disagree("foreign-membership", "xin %s %s (%s)" % (vcls.__name__, c, kind), obs, pred, False,
                                      {"scheme": name, "foreign_class": c, "kind": kind})
+
+
+class _Key:
+    """sort key through the real `<`"""
+
+    def __init__(self, v):
+        self.v = v
+
+    def __lt__(self, other):
+        return self.v < other.v
